@@ -361,11 +361,22 @@ pub fn parse_choice_text(input: &str) -> Result<ParsedChoiceText, CompilerError>
         };
         let (choice_only_text, choice_only_tags) = split_text_and_tags(&label)?;
         if after_label.is_empty() || after_label.starts_with("->") {
-            let inline_target = after_label
-                .strip_prefix("->")
-                .map(str::trim)
-                .map(parse_divert)
-                .transpose()?;
+            // `[x] ->-> ...` is a tunnel return, not a divert to something called `->`
+            let tunnel_return = after_label.starts_with("->->");
+            let inline_target = if tunnel_return {
+                None
+            } else {
+                after_label
+                    .strip_prefix("->")
+                    .map(str::trim)
+                    .map(parse_divert)
+                    .transpose()?
+            };
+            let inline_body_nodes = if tunnel_return {
+                parse_divert_line(after_label.trim_end())?
+            } else {
+                Vec::new()
+            };
             return Ok(ParsedChoiceText {
                 display_text: choice_only_text.clone(),
                 selected_text: None,
@@ -374,7 +385,7 @@ pub fn parse_choice_text(input: &str) -> Result<ParsedChoiceText, CompilerError>
                 has_start_content: false,
                 has_choice_only_content: true,
                 inline_target,
-                inline_body_nodes: Vec::new(),
+                inline_body_nodes,
                 start_tags: Vec::new(),
                 choice_only_tags,
                 selected_tags: Vec::new(),
